@@ -147,6 +147,12 @@ impl Parser<'_> {
         self.input.nth(n)
     }
 
+    /// Pure lookahead for scans whose length is bounded by the input, not by
+    /// the stuck-parser fuel (a scan over a long path is not a stuck parser).
+    pub fn lookahead(&self, n: usize) -> TokenKind {
+        self.input.nth(n)
+    }
+
     pub fn eof(&mut self) -> bool {
         self.input.eof()
     }
